@@ -76,6 +76,9 @@ type Msg struct {
 	Sub     string       `json:"sub,omitempty"`
 	Ev      *EvSpec      `json:"ev,omitempty"`
 	Filters []FilterSpec `json:"filters,omitempty"`
+	// EvObj, when set, is used instead of Ev (events whose tags were resolved by
+	// the engine); never serialised: replay files carry the case, not messages.
+	EvObj *mocrelay.Event `json:"-"`
 
 	cm mocrelay.ClientMsg
 }
@@ -88,7 +91,11 @@ func (m *Msg) Client() mocrelay.ClientMsg {
 	}
 	switch m.T {
 	case "EVENT":
-		m.cm = &mocrelay.ClientEventMsg{Event: m.Ev.Event()}
+		if m.EvObj != nil {
+			m.cm = &mocrelay.ClientEventMsg{Event: m.EvObj}
+		} else {
+			m.cm = &mocrelay.ClientEventMsg{Event: m.Ev.Event()}
+		}
 	case "REQ":
 		m.cm = &mocrelay.ClientReqMsg{SubscriptionID: m.Sub, ReqFilters: Filters(m.Filters)}
 	case "CLOSE":
